@@ -90,6 +90,24 @@ def generate(rng, tier):
             add(texts[:i] + [f[0]] + texts[i:j] + [f[1]] + texts[j:], "two", rep)
     for t in ["", "\n", "\n\n", "=", "=x", "PKGNAME=a", "\r\n"]:
         cases.append(Case("sum.parse", [enc(t)], meta={"fault": "tiny", "rep": False}))
+    # unusual-but-legal text around a complete entry: a byte-order mark or other invisible character before the first
+    # variable name is part of that name (unknown variable); '\r' other than the one of a CRLF pair is value data;
+    # boundary values of the two integers, written with and without sign and padding
+    for _ in range(6 if tier == "quick" else 60):
+        texts = [l for _, l in lines_of(sgen.entry(rng))]
+        body = "".join(l + "\n" for l in texts)
+        for pre in ("\ufeff", "\u200b", "\x00", " ", "\ufeff\ufeff"):
+            cases.append(Case("sum.parse", [enc(pre + body)], meta={"fault": "prefix", "rep": False}))
+        i = rng.randrange(len(texts))
+        cases.append(Case("sum.parse", [enc("".join(l + "\n" for l in texts[:i]) + "\ufeff" + "".join(l + "\n" for l in texts[i:]))], meta={"fault": "prefix", "rep": False}))
+        for eol in ("\r\r\n", "\r", "\n\r", "\r\n\r\n"):
+            cases.append(Case("sum.parse", [enc("".join(l + eol for l in texts))], meta={"fault": "eol", "rep": False}))
+        cases.append(Case("sum.parse", [enc(body[:-1] + "\r")], meta={"fault": "eol", "rep": False}))
+        cases.append(Case("sum.parse", [enc(body + "SIZE_PKG=4321\r")], meta={"fault": "eol", "rep": False}))
+        for num in ("9223372036854775807", "9223372036854775808", "9999999999999999999", "09223372036854775807", "+9223372036854775807", "-9223372036854775808",
+                    "-9223372036854775809", "18446744073709551615", "18446744073709551616", "00000000000000000000001", "-0000000000000000000009", "99999999999999999999", "1" + "0" * 19):
+            cases.append(Case("sum.parse", [enc(body + "FILE_SIZE=" + num + "\n")], meta={"fault": "intbound", "rep": True}))
+            cases.append(Case("sum.parse", [enc(body + "SIZE_PKG=" + num + "\n")], meta={"fault": "intbound", "rep": True}))
     return cases
 
 
